@@ -386,7 +386,26 @@ class Scenario:
                 self.stop_writer.set()
                 wt.join(15)
                 wt = None
+            if not installed and not self.quiet:
+                # a second bounded period with a faster writer (every burst lets the leader compact again)
+                t1 = time.time()
+                while time.time() - t1 < B and not self.snapshot_installs(n3):
+                    for _ in range(5):
+                        self.write_one(leader, rnd)
+                    time.sleep(0.3)
+                installed = self.snapshot_installs(n3)
+                self.step("transfer-second-period", seconds=round(time.time() - t1, 1), snapshot_installs=installed)
             if not installed:
+                fm, lm = n3.metrics() or {}, leader.metrics() or {}
+                if n3.alive() and fm.get("last_log_index", 0) < lm.get("last_log_index", 0) - 3:
+                    # neither a snapshot nor the log reached the node within 2 B although clients kept writing: it is not being caught up
+                    self.res["violations"].append(("%s/follower-never-caught-up/replication" % self.mode,
+                                                   {"scenario": self.name, "n": self.n, "seed": self.seed, "waited_s": round(time.time() - t_start, 1), "leader_metrics": lm, "follower_metrics": fm,
+                                                    "leader_compactions": self.compactions(leader), "snapshot_installs_seen_in_follower_log": 0,
+                                                    "note": "clients kept writing during the whole wait"}))
+                    self.res["snapshot_installs"] = 0
+                    self.res["never_caught_up"] = True
+                    return self.res
                 raise Inconclusive("%s: no snapshot install seen in the follower's log (leader %s, follower %s)" % (self.name, leader.metrics(), n3.metrics()))
             self.res["snapshot_installs"] = installed
             # the follower must keep replicating after the install
